@@ -53,6 +53,7 @@ def make_group(desc):
 
 
 def run(shard, rec):
+    rec.default_cpu_seconds = 60          # every guarded group computation takes well under a second on the unchanged tree
     from vlib import env
     env.prepare()
     from mpyc import fingroups as fg
